@@ -1,2 +1,3 @@
 -- Root of the `RegionsVerif` library: every module that must be built.
 import RegionsVerif.Props.C19
+import RegionsVerif.Props.C05
